@@ -5,6 +5,7 @@
  *   y new <kind>                      kind = axis|line|text|graph|world; objects are numbered 0,1,.. in creation order
  *   y set <k> <name> <hex|null|nullstr>   text value through mpt_object_set_string (null: set_property(name, 0),
  *                                     nullstr: mpt_object_set_string with val = NULL)
+ *   y setv <k> <name> <t> <num>       typed value through mpt_object_set_value: t = y n u i c f d (number as decimal text)
  *   y get <k> <name>                  mpt_<kind>_get by name
  *   y reset <k>                       mpt_<kind>_set(obj, "", 0)
  *   y copy <k> <j>                    mpt_<kind>_set(obj k, "", <convertable yielding object j>)
@@ -291,6 +292,32 @@ int main(void)
 				free(val);
 				free(dat);
 			}
+			free(name);
+			result(ret < 0 ? "refused" : "ok", ob, ret);
+		}
+		else if (!strcmp(op, "setv") && drv_nw == 6) {
+			struct obj *ob = parse_obj(drv_w[2]);
+			char *name = parse_name(drv_w[3]), *end = 0;
+			union { uint8_t y; int16_t n; uint32_t u; int32_t i; char c; float f; double d; } st;
+			MPT_STRUCT(value) val;
+			int ret, t = drv_w[4][0];
+			double num;
+			if (!ob || !name || !*name || drv_w[4][1]) { puts("bad-op"); free(name); continue; }
+			num = strtod(drv_w[5], &end);
+			if (!end || *end || end == drv_w[5]) { puts("bad-op"); free(name); continue; }
+			switch (t) {
+			  case 'y': st.y = (uint8_t) num; break;
+			  case 'n': st.n = (int16_t) num; break;
+			  case 'u': st.u = (uint32_t) num; break;
+			  case 'i': st.i = (int32_t) num; break;
+			  case 'c': st.c = (char) num; break;
+			  case 'f': st.f = (float) num; break;
+			  case 'd': st.d = num; break;
+			  default: t = 0;
+			}
+			if (!t) { puts("bad-op"); free(name); continue; }
+			MPT_value_set(&val, t, &st);
+			ret = mpt_object_set_value(&ob->_obj, name, &val);
 			free(name);
 			result(ret < 0 ? "refused" : "ok", ob, ret);
 		}
